@@ -70,18 +70,24 @@ def make_classes():
     class Custom(Base, metaclass=singleton.semi_singleton_metaclass(hashfunc=_first_arg)):
         pass
 
+    class EmptyBag(Base, metaclass=singleton.semi_singleton_metaclass()):
+        """Container-like class: its instances are falsy (len 0)."""
+
+        def __len__(self):
+            return 0
+
     class SVertex(Vertex, metaclass=singleton.semi_singleton_metaclass()):
         def __init__(self, *args, **kwargs):
             INIT_LOG.append((type(self).__name__, id(self), args, dict(kwargs)))
             super().__init__()
 
-    classes = {c.__name__: c for c in (Own1, Own2, SharedA, SharedB, Parent, Child, Custom, SVertex)}
+    classes = {c.__name__: c for c in (Own1, Own2, SharedA, SharedB, Parent, Child, Custom, SVertex, EmptyBag)}
     return classes
 
 
-CLASS_NAMES = ["Own1", "Own2", "SharedA", "SharedB", "Parent", "Child", "Custom", "SVertex"]
+CLASS_NAMES = ["Own1", "Own2", "SharedA", "SharedB", "Parent", "Child", "Custom", "SVertex", "EmptyBag"]
 ARRANGEMENT = {"Own1": "own", "Own2": "own", "SharedA": "shared_metaclass", "SharedB": "shared_metaclass",
-               "Parent": "subclassing", "Child": "subclassing", "Custom": "custom_hashfunc", "SVertex": "vertex_subclass"}
+               "Parent": "subclassing", "Child": "subclassing", "Custom": "custom_hashfunc", "SVertex": "vertex_subclass", "EmptyBag": "falsy_instances"}
 
 
 def model_key(cname, args, kwargs):
@@ -261,7 +267,7 @@ def prelude():
     """Seed-independent scripts that make every arrangement x situation appear."""
     out = []
     for a, b in (("Own1", "Own2"), ("SharedA", "SharedB"), ("Parent", "Child"), ("Child", "Parent"), ("Custom", "Own1"),
-                 ("SVertex", "Own1"), ("SharedB", "SharedA")):
+                 ("SVertex", "Own1"), ("SharedB", "SharedA"), ("EmptyBag", "Own1"), ("Own2", "EmptyBag")):
         for v1, v2 in ((0, 1), (2, 3), (5, 6), (12, 13), (19, 20), (9, 9)):
             out.append([
                 {"op": "new", "c": a, "a": [v1], "k": 0, "i": 0},
@@ -295,7 +301,8 @@ def prelude():
 def floors(ctx):
     q = ctx.tier == "quick"
     return {"evaluations": 5000 if q else 50000, "histories": 200 if q else 2000, "cache_hits": 1000 if q else 10000,
-            "histories_shared_metaclass": 20, "histories_subclassing": 20, "histories_custom_hashfunc": 20}
+            "histories_shared_metaclass": 20, "histories_subclassing": 20, "histories_custom_hashfunc": 20,
+            "histories_falsy_instances": 20}
 
 
 def judge(ctx, ops):
